@@ -1160,7 +1160,7 @@ func c18evalNet(c *lib.Ctx, p *c18netPlan, res *c18netResult, label string) {
 			c.Count(fmt.Sprintf("receptions_T=%d_ttl=%d", in.TTL, rc.TTL), 1)
 		}
 		if !quietOK {
-			c.Inconclusive(fmt.Sprintf("%s %s: network never went quiet after batch %d", label, p.ID, in.Batch))
+			c.Count("batches_not_evaluated_network_not_quiet", 1)
 			return
 		}
 		// first TTL each agent's processor saw (the only reception it forwards)
@@ -1236,6 +1236,9 @@ func c18evalNet(c *lib.Ctx, p *c18netPlan, res *c18netResult, label string) {
 				if res.Created[k] == 1 {
 					c.Count("agent_batch_tasks_created_once", 1)
 				}
+				if cnt > 0 {
+					c.Seen("tasks_per_agent_factory_batch_when_received", fmt.Sprintf("received %s -> created %d, executed %d", c18mult(cnt), res.Created[k], res.Executed[k]))
+				}
 			}
 		}
 		minTTL := in.TTL
@@ -1251,6 +1254,9 @@ func c18evalNet(c *lib.Ctx, p *c18netPlan, res *c18netResult, label string) {
 			c.Inconclusive(fmt.Sprintf("%s %s: round %d was not completed (child phase %q)", label, p.ID, ri, res.Phase))
 			continue
 		}
+		if !res.QuietReached[ri] {
+			c.Inconclusive(fmt.Sprintf("%s %s: network did not go quiet within the watchdog after round %d (%d batches not evaluated)", label, p.ID, ri, len(round)))
+		}
 		for _, in := range round {
 			evalBatch(in, res.QuietReached[ri])
 		}
@@ -1259,6 +1265,9 @@ func c18evalNet(c *lib.Ctx, p *c18netPlan, res *c18netResult, label string) {
 		c.Count("churn_joins", int64(res.ChurnJoins))
 		c.Count("churn_leaves", int64(res.ChurnLeaves))
 		q := res.QuietReached[len(res.QuietReached)-1]
+		if !q {
+			c.Inconclusive(fmt.Sprintf("%s %s: network did not go quiet within the watchdog after the churn phase (%d batches not evaluated)", label, p.ID, len(res.ChurnInjected)))
+		}
 		for _, in := range res.ChurnInjected {
 			evalBatch(in, q)
 		}
@@ -1274,6 +1283,17 @@ func c18evalNet(c *lib.Ctx, p *c18netPlan, res *c18netResult, label string) {
 	}
 	if res.Undecoded > 0 {
 		c.Count("undecodable_messages", int64(res.Undecoded))
+	}
+}
+
+func c18mult(n int) string {
+	switch {
+	case n <= 1:
+		return "once"
+	case n <= 3:
+		return "2-3 times"
+	default:
+		return "4+ times"
 	}
 }
 
@@ -1305,7 +1325,7 @@ func c18runNet(c *lib.Ctx, seeds []uint64, idx int, race bool, slots []int) {
 	}
 	for attempt := 0; attempt < 3; attempt++ {
 		basePort := 21000 + (slots[attempt] % 49 * 20)
-		p := c18makeNetPlan(lib.NewRand(seeds[attempt]), idx, basePort, c.Thorough(), race)
+		p := c18makeNetPlan(lib.NewRand(seeds[attempt]), idx, basePort, c.Thorough() && !race, race) // race children always run the small plan
 		if !onlyMatch(c, p.ID) {
 			return
 		}
@@ -1314,7 +1334,7 @@ func c18runNet(c *lib.Ctx, seeds []uint64, idx int, race bool, slots []int) {
 		out := filepath.Join(dir, "result.json")
 		buf, _ := json.Marshal(p)
 		ioutil.WriteFile(planPath, buf, 0644)
-		cr := runChild(dir, race, 240*time.Second, "c18net", planPath, out)
+		cr := runChild(dir, race, 400*time.Second, "c18net", planPath, out)
 		var res c18netResult
 		rb, err := ioutil.ReadFile(out)
 		if err == nil {
